@@ -26,6 +26,23 @@ int main(int argc, char** argv) {
       TwoIndex<double> v; eng.compute_shell_pair(U, A, B, v);
       put_mat(f, std::string("v_") + m.tag, v);
       if (std::string(m.tag) == "d") put_trace(f);
+      // derivative blocks (deriv 1: the nine first-derivative matrices; deriv 2: also the 45 second-derivative matrices), one after
+      // the other in one row-major matrix, for the default mode and with every screen bypassed
+      if (deriv >= 1 && (std::string(m.tag) == "d" || std::string(m.tag) == "ns" || std::string(m.tag) == "nsl" || std::string(m.tag) == "nsp")) {
+        verif::ctl().reset_trace();
+        std::array<TwoIndex<double>, 9> r1; eng.compute_shell_pair_derivative(U, A, B, r1);
+        TwoIndex<double> g(9 * r1[0].dims[0], r1[0].dims[1], 0.0);
+        for (int b = 0; b < 9; b++) for (int i = 0; i < r1[b].dims[0]; i++) for (int j = 0; j < r1[b].dims[1]; j++) g(b * r1[0].dims[0] + i, j) = r1[b](i, j);
+        put_mat(f, std::string("g_") + m.tag, g);
+        if (deriv >= 2) {
+          std::array<TwoIndex<double>, 45> r2; eng.compute_shell_pair_second_derivative(U, A, B, r2);
+          TwoIndex<double> h(45 * r2[0].dims[0], r2[0].dims[1], 0.0);
+          for (int b = 0; b < 45; b++) for (int i = 0; i < r2[b].dims[0]; i++) for (int j = 0; j < r2[b].dims[1]; j++) h(b * r2[0].dims[0] + i, j) = r2[b](i, j);
+          put_mat(f, std::string("h_") + m.tag, h);
+        }
+        // how many per-l channels / type-1 parts / primitive quadratures the screens dropped inside the derivative routines (default mode)
+        if (std::string(m.tag) == "d") std::fprintf(f, "ints dtrace 3 %ld %ld %ld\n", verif::ctl().shellpair_l_screened, verif::ctl().shellpair_type1_screened, verif::ctl().prim_screened);
+      }
     }
     verif::ctl() = verif::Ctl();
     std::fprintf(f, "end\n");
